@@ -1,12 +1,16 @@
 import Driver.Loop
 import ElaVerif.Model.Deposit
+import ElaVerif.Model.CRDeposit
 open ElaVerif.Deposit Driver
+open ElaVerif.CRDeposit (CRAcct CRTx CState)
 
 structure DS where
   P : Params := ⟨0, 0, 0, 0, 0, 0⟩
   h : Nat := 0
   s : State := State.empty
   q : List Tx := []        -- accepted / queued transactions of the open block (reversed)
+  crs : AMap CRAcct := []  -- CR candidates' deposit accounts
+  cq : List CRTx := []
 
 def insSorted {α : Type} (x : Nat × α) : List (Nat × α) → List (Nat × α)
   | [] => [x]
@@ -19,12 +23,17 @@ def b2n (b : Bool) : Nat := if b then 1 else 0
 def stCode : PState → Nat
   | .pending => 0 | .active => 1 | .canceled => 3 | .illegal => 4 | .returned => 5
 
+def csCode : CState → Nat
+  | .pending => 0 | .active => 1 | .canceled => 2 | .returned => 3
+
 def dump (d : DS) : String :=
   let a := (sortK d.s.accts).foldl (fun acc (p : Nat × Acct) =>
     acc ++ s!" {p.1}:{p.2.total}:{p.2.deposit}:{p.2.penalty}:{stCode p.2.st}:{b2n p.2.mP + 2 * b2n p.2.mA + 4 * b2n p.2.mL + 8 * b2n p.2.mC}") ""
   let t := (sortK d.s.stakes).foldl (fun acc (p : Nat × Stake) =>
     acc ++ s!" {p.1}:{p.2.rights}:{p.2.used}") ""
-  s!"h={d.h} A{a} S{t}"
+  let r := (sortK d.crs).foldl (fun acc (p : Nat × CRAcct) =>
+    acc ++ s!" {p.1}:{p.2.total}:{p.2.deposit}:{p.2.penalty}:{csCode p.2.st}") ""
+  s!"h={d.h} A{a} S{t} R{r}"
 
 def ints? (s : String) : Option (List Int) :=
   (s.splitOn ",").foldr (fun x acc => match int? x, acc with
@@ -44,6 +53,13 @@ def parseTx : List String → Option Tx
   | ["retv", k, v] => do pure (.retv (← nat? k) (← int? v))
   | _ => none
 
+def parseCR : List String → Option CRTx
+  | ["crreg", o, amount] => do pure (.reg (← nat? o) (← int? amount))
+  | ["crdep", o, v] => do pure (.dep (← nat? o) (← int? v))
+  | ["crcancel", o] => do pure (.cancel (← nat? o))
+  | ["crret", o, inp, tinp, change, out, _] => do pure (.ret (← nat? o) (← int? inp) (← int? tinp) (← int? change) (← int? out))
+  | _ => none
+
 def isEnv : Tx → Bool
   | .reg .. | .dep .. | .pen .. | .stake .. => true
   | _ => false
@@ -56,13 +72,20 @@ def stepC28 (d : DS) (toks : List String) : DS × String :=
     | _, _, _, _, _, _ => (d, "bad-op")
   | ["reset"] => ({}, "ok")
   | ["begin", h] => match nat? h with
-    | some h => ({ d with h := h, q := [] }, "ok")
+    | some h => ({ d with h := h, q := [], cq := [] }, "ok")
     | none => (d, "bad-op")
   | ["end"] =>
     let s' := applyTxs d.P d.h d.s d.q.reverse
-    let d' := { d with s := s', q := [] }
+    let d' := { d with s := s', q := [], crs := ElaVerif.CRDeposit.applyTxs d.P d.h d.crs d.cq.reverse, cq := [] }
     (d', dump d')
   | _ =>
+    match parseCR toks with
+    | some ctx =>
+      (match ElaVerif.CRDeposit.check d.crs ctx with
+       | some e => (d, "reject " ++ e)
+       | none => ({ d with cq := ctx :: d.cq },
+           match ctx with | .reg .. | .dep .. => "queued" | _ => "accept"))
+    | none =>
     match parseTx toks with
     | none => (d, "bad-op")
     | some tx =>
